@@ -116,13 +116,7 @@ def scripts_from(r, prefix, weights=None, max_len=300, snap=False):
 
 
 def replay(binp, scripts, sd, name, timeout=900):
-    sp = os.path.join(sd, name + ".scripts.ndjson")
-    tp = os.path.join(sd, name + ".trace.ndjson")
-    vlib.write_ndjson(sp, scripts)
-    vlib.run([binp, sp, tp], timeout=timeout)
-    if not os.path.exists(tp + ".ok"):
-        raise vlib.FrameworkError("lbsim did not finish (%s)" % name)
-    return tp
+    return vlib.run_chunked(binp, scripts, sd, name, chunk=300, timeout=timeout)
 
 
 KEEP = {
